@@ -44,10 +44,16 @@ def run(ctx):
              "sub-range): a kept line that references a renumbered line must be rewritten too")
     ctx.rule("C14.f", "lines below old-start keep their order: the `old_end >= new_start` "
              "rejection exists")
+    ctx.rule("C14.h", "RENUM splices a replacement at every operand with a non-empty column, so "
+             "each line number read from the source may give its column to one operand only: in "
+             "expect_line_number_range (LIST/DELETE n[-m]) every Expression::Single either carries "
+             "the column of its own maybe_line_number() token or a zero-width column (start..start); "
+             "no token column flows into two operands")
     rule_a(ctx, cr)
     rule_b(ctx, cr)
     rule_c(ctx, cr)
     rule_def(ctx, cr)
+    rule_h(ctx, cr)
 
 
 def referencing_variants(ctx, cr):
@@ -293,3 +299,102 @@ def rule_g(ctx, cr, f):
                   "Line::renum is applied to every line of the listing",
                   "Line::renum is applied to a sub-range of the listing only (%s): lines outside "
                   "it keep references to old numbers" % (part or "no whole-listing iterator"))
+
+
+def _column_roots(f, op, depth=0, seen=None):
+    """where can the Range in `op` come from: {('tok', bb)} for a clone of self.col taken in
+    block bb, {('empty',)} for Range{start: x, end: x}, {('other', text)} otherwise; follows
+    copies, clones of locals and locals assigned on several paths"""
+    from lib.mir import op_place
+    seen = seen if seen is not None else set()
+    if depth > 12:
+        return {("other", "too deep")}
+    v = f.value_of_operand(op)
+    if v is None:
+        return {("other", "?")}
+    return _roots_of_value(f, v, depth, seen)
+
+
+def _roots_of_value(f, v, depth, seen):
+    from lib.mir import op_place
+    k = v.get("k")
+    if k == "call":
+        c = v["call"]
+        if c.name.endswith("Clone>::clone") or c.name.endswith("Clone::clone"):
+            d = f.describe(c.args[0])
+            if re.search(r"\(\*_1\)\.col$", d):
+                return {("tok", c.bb)}
+            p = op_place(c.args[0])
+            if p is not None:
+                rv = f.value_of_operand(c.args[0])
+                if rv and rv.get("k") == "rv" and rv["rv"]["k"] == "ref":
+                    pl = rv["rv"]["place"]
+                    if not pl["proj"]:
+                        return _roots_of_local(f, pl["local"], depth + 1, seen)
+            return {("other", d[:60])}
+        return {("other", c.name)}
+    if k == "rv":
+        rv = v["rv"]
+        if rv["k"] == "aggregate" and rv.get("adt") == "std::ops::Range":
+            a, b = rv["ops"]
+            if f.same_origin(a, b) or f.describe(a) == f.describe(b):
+                return {("empty",)}
+            return {("other", "Range(%s,%s)" % (f.describe(a)[:30], f.describe(b)[:30]))}
+        if rv["k"] == "use":
+            return _column_roots(f, rv["op"], depth + 1, seen)
+        return {("other", rv["k"])}
+    if k == "multi":
+        return _roots_of_local(f, v["local"], depth + 1, seen)
+    return {("other", k)}
+
+
+def _roots_of_local(f, l, depth, seen):
+    if l in seen or depth > 12:
+        return set()
+    seen.add(l)
+    out = set()
+    for d in f.defs().get(l, []):
+        if d[0] == "call":
+            out |= _roots_of_value(f, {"k": "call", "call": d[2]}, depth, seen)
+        elif d[0] == "stmt":
+            out |= _roots_of_value(f, {"k": "rv", "rv": d[3], "bb": d[1], "idx": d[2]}, depth, seen)
+        elif d[0] == "partial":
+            continue
+        else:
+            out.add(("other", d[0]))
+    return out
+
+
+def rule_h(ctx, cr):
+    f = cr.need_fn("lang::parse::BasicParser<'a>::expect_line_number_range")
+    ctx.touch(f)
+    mln = f.calls_to("lang::parse::BasicParser<'a>::maybe_line_number")
+    aggs = list(f.aggregates("lang::ast::Expression", "Single"))
+    if not ctx.check(len(mln) == 2 and len(aggs) >= 2, "C14.h", "range/shape", f.span,
+                     "two optional line numbers, operands built as Expression::Single"):
+        return
+    use = {}
+    odd = []
+    for n, (b, i, st) in enumerate(aggs, 1):
+        roots = _column_roots(f, st["rv"]["ops"][0])
+        for r in roots:
+            if r[0] == "tok":
+                # which line-number token: the last maybe_line_number call that dominates the clone
+                owner = [c for c in mln if f.dominates(c.bb, r[1])]
+                owner = max(owner, key=lambda c: len(f.dominators().get(c.bb, ())), default=None)
+                use.setdefault(owner.bb if owner else None, set()).add((b, i))
+            elif r[0] == "other":
+                odd.append((n, r[1]))
+    ctx.check(not odd, "C14.h", "range/column-sources", f.span,
+              "every operand column is a token column or start..start",
+              "operand columns of unknown origin: %s" % odd)
+    for c in mln:
+        k = len(use.get(c.bb, ()))
+        ctx.check(k <= 1, "C14.h", "range/token-column-used-once#%d" % (mln.index(c) + 1), c.span,
+                  "the token's column is given to %d operand" % k,
+                  "the column of one line-number token is attached to %d operands of the range: "
+                  "the implied bound of `LIST n` / `DELETE n` is no longer zero-width, RENUM "
+                  "treats it as a second reference and splices the new number in twice "
+                  "(`LIST 10` becomes `LIST 100000`, or text after the operand is eaten)" % k)
+    ctx.check(None not in use, "C14.h", "range/token-column-owner", f.span,
+              "each token column is taken after its own maybe_line_number()")
